@@ -816,7 +816,9 @@ EGLPNUM_TYPENAME_QSLIB_INTERFACE EGLPNUM_TYPENAME_QSdata *EGLPNUM_TYPENAME_QScop
 
 	if (p->qslp->intmarker != 0)
 	{
-		ILL_SAFE_MALLOC (p2->qslp->intmarker, p->qslp->nstruct, char);
+		/* as large as the copy's other per-column arrays: ILLlib_addcol writes
+		 * intmarker[nstruct] without growing it while nstruct < structsize */
+		ILL_SAFE_MALLOC (p2->qslp->intmarker, p2->qslp->structsize, char);
 
 		for (j = 0; j < p->qslp->nstruct; j++)
 		{
